@@ -37,6 +37,7 @@ type Leg struct {
 	QuickS    int    `json:"quick_s"` // wall cap per worker, seconds
 	ThoroughS int    `json:"thorough_s"`
 	Race      bool   `json:"race,omitempty"`
+	RaceCtl   bool   `json:"racectl,omitempty"` // race build in controlled mode: the seeded scheduler picks the interleaving, the race detector judges it
 	Dense     string `json:"dense,omitempty"`
 }
 
@@ -412,9 +413,15 @@ func check(prop, tier string) int {
 				gmp := 1
 				if leg.Race {
 					// free mode: the Go scheduler interleaves the goroutines, the race
-					// detector watches; the oracles of the controlled mode do not apply
-					gmp = 4
-					args = append(args, "-free")
+					// detector watches; the oracles of the controlled mode do not apply.
+					// racectl: the seeded scheduler interleaves, the detector judges
+					// happens-before (the simulator's own synchronisation is hidden from it)
+					if leg.RaceCtl {
+						gmp = 1
+					} else {
+						gmp = 4
+						args = append(args, "-free")
+					}
 					for i := range args {
 						if args[i] == "-prop" {
 							args[i+1] = "__races_only__"
@@ -442,9 +449,17 @@ func check(prop, tier string) int {
 			if leg.Race {
 				for _, rc := range parseRaces(r.stderr) {
 					agg.Extra["data_race_reports"]++
-					allViols = append(allViols, replayFile{Property: prop, Profile: leg.Profile, Seed: r.lastRun,
-						Plan:      json.RawMessage(`{"note":"race reports are reproduced statistically: run the -race worker in free mode over the seed range of the evidence file"}`),
-						Violation: violation{Prop: prop, Oracle: "data-race", Msg: rc}})
+					plan := json.RawMessage(`{"note":"race reports of the free mode are reproduced statistically: run the -race worker in free mode over the seed range of the evidence file"}`)
+					seedOf := r.lastRun
+					if leg.RaceCtl {
+						// controlled mode: the report belongs to the seed that was running and replays
+						seedOf = rc.seed
+						if out, err := exec.Command(bin, "-profile", leg.Profile, "-from", fmt.Sprint(rc.seed), "-plan").Output(); err == nil {
+							plan = json.RawMessage(out)
+						}
+					}
+					allViols = append(allViols, replayFile{Property: prop, Profile: leg.Profile, Seed: seedOf, Plan: plan,
+						Violation: violation{Prop: prop, Oracle: "data-race", Msg: rc.msg}})
 				}
 			}
 			legRuns += s.Runs
@@ -555,11 +570,26 @@ func check(prop, tier string) int {
 
 // parseRaces extracts the race reports whose two accesses are both in code of
 // tsuna/gohbase (not in the simulator or the harness).
-func parseRaces(stderr string) []string {
-	var out []string
+type raceReport struct {
+	msg  string
+	seed uint64
+}
+
+func parseRaces(stderr string) []raceReport {
+	var out []raceReport
 	seen := map[string]bool{}
+	var cur uint64
 	blocks := strings.Split(stderr, "WARNING: DATA RACE")
-	for _, b := range blocks[1:] {
+	seedIn := func(b string) {
+		for _, l := range strings.Split(b, "\n") {
+			if strings.HasPrefix(l, "RUN ") {
+				cur, _ = strconv.ParseUint(strings.TrimSpace(l[4:]), 10, 64)
+			}
+		}
+	}
+	seedIn(blocks[0])
+	for _, whole := range blocks[1:] {
+		b := whole
 		if i := strings.Index(b, "=================="); i >= 0 {
 			b = b[:i]
 		}
@@ -570,20 +600,17 @@ func parseRaces(stderr string) []string {
 				tops = append(tops, strings.TrimSpace(lines[i+1]))
 			}
 		}
-		if len(tops) < 2 {
-			continue
-		}
 		inRepo := func(f string) bool {
 			return strings.HasPrefix(f, "github.com/tsuna/gohbase") && !strings.Contains(f, "verifsimrt")
 		}
-		if !inRepo(tops[0]) || !inRepo(tops[1]) {
-			continue
+		if len(tops) >= 2 && inRepo(tops[0]) && inRepo(tops[1]) {
+			msg := "data race between " + tops[0] + " and " + tops[1]
+			if !seen[msg] {
+				seen[msg] = true
+				out = append(out, raceReport{msg, cur})
+			}
 		}
-		msg := "data race between " + tops[0] + " and " + tops[1]
-		if !seen[msg] {
-			seen[msg] = true
-			out = append(out, msg)
-		}
+		seedIn(whole)
 	}
 	return out
 }
@@ -756,6 +783,25 @@ func replay(path string) int {
 	}
 	scr := scratch()
 	defer os.RemoveAll(scr)
+	if rf.Violation.Oracle == "data-race" {
+		if !bytes.Contains(rf.Plan, []byte(`"tasks"`)) {
+			fmt.Println("replay: a race report of the free mode has no schedule to replay; re-run the check")
+			return 3
+		}
+		// controlled mode under the race detector: same plan, same schedule, same report
+		build(scr, "race", "")
+		cmd := exec.Command(filepath.Join(scr, "bin", "simworker-race"), "-replay", path)
+		cmd.Env = append(os.Environ(), "GOMAXPROCS=1", "GORACE=halt_on_error=0")
+		var se bytes.Buffer
+		cmd.Stderr = &se
+		cmd.Run()
+		for _, rc := range parseRaces(se.String()) {
+			fmt.Printf("%s\nVIOLATION property=%s replay=%s\n", rc.msg, rf.Violation.Prop, path)
+			return 1
+		}
+		fmt.Println("replay: no race between two accesses of tsuna/gohbase code was reported")
+		return 3
+	}
 	build(scr, "ctl", os.Getenv("VERIF_DENSE"))
 	bin := filepath.Join(scr, "bin", "simworker")
 	cmd := exec.Command(bin, "-replay", path)
